@@ -54,7 +54,8 @@ def run(pid, families, rule, assumptions, extra_trust=(), n_quick=140, n_thoroug
         import corr_net  # noqa: F401
         import corr_star  # noqa: F401
         K.correspondence(rep, "net", net_corr[1] if thorough else net_corr[0], 8, tag=pid.lower(), maxdigits=30)
-    seen = M.monitor(rep, pid, [f for f in families if f not in NODE_FAMILIES], n if not thorough else n * 2, maxops if not thorough else maxops + 10)
+    seen = M.monitor(rep, pid, [f for f in families if f not in NODE_FAMILIES], n if not thorough else n * 2, maxops if not thorough else maxops + 10,
+                     cases_extra=K.MISMATCHED)
     if extra:
         for k, v in (extra(rep, thorough) or {}).items():
             seen.setdefault(k, (v, 'net', {'ops': [], 'cls': 'model'}, -1))
